@@ -71,8 +71,13 @@ impl HttpListeningExporter {
             service_fn(move |req| Self::handle_http_request(is_allowed, handle.clone(), req));
 
         tokio::spawn(async move {
-            if let Err(err) =
-                HyperHttpBuilder::new().serve_connection(TokioIo::new(stream), service).await
+            // A client may send its complete request and then shut down its write side (`printf .. | nc`): with
+            // hyper's default (`half_close(false)`) the connection would be dropped while the response is still
+            // being rendered, and the request would never be answered.
+            if let Err(err) = HyperHttpBuilder::new()
+                .half_close(true)
+                .serve_connection(TokioIo::new(stream), service)
+                .await
             {
                 warn!(error = ?err, "Error serving connection.");
             }
@@ -124,8 +129,13 @@ impl HttpListeningExporter {
         let service = service_fn(move |req| Self::handle_http_request(true, handle.clone(), req));
 
         tokio::spawn(async move {
-            if let Err(err) =
-                HyperHttpBuilder::new().serve_connection(TokioIo::new(stream), service).await
+            // A client may send its complete request and then shut down its write side (`printf .. | nc`): with
+            // hyper's default (`half_close(false)`) the connection would be dropped while the response is still
+            // being rendered, and the request would never be answered.
+            if let Err(err) = HyperHttpBuilder::new()
+                .half_close(true)
+                .serve_connection(TokioIo::new(stream), service)
+                .await
             {
                 warn!(error = ?err, "Error serving connection.");
             };
